@@ -1,5 +1,127 @@
 import XsVerif.Driver.Util
-open Lean XsVerif.Driver
+import XsVerif.Model.NsMapper
+open Lean XsVerif.Driver XsVerif.NsMapper
 
--- stub: replaced when the model of C17 lands
-def main : IO Unit := XsVerif.Driver.run fun _ => .error "C17 driver not implemented"
+namespace XsVerif.Driver.C17
+
+def parsePair (j : Json) : Except String (String × String) := do
+  let a ← j.getArr?
+  if h : a.size = 2 then
+    return (← a[0].getStr?, ← a[1].getStr?)
+  else throw "pair"
+
+def parsePairs (j : Json) (k : String) : Except String (List (String × String)) := do
+  (← getArr j k).toList.mapM parsePair
+
+def parseQN (j : Json) : Except String QN := do
+  let (a, b) ← parsePair j
+  return ⟨a, b⟩
+
+def parseMode (s : String) : Except String Mode :=
+  match s with
+  | "stacked" => pure .stacked | "collapsed" => pure .collapsed
+  | "root-only" => pure .rootOnly | "none" => pure .none | _ => throw "mode"
+
+def parseVariant (s : String) : Except String Variant :=
+  match s with
+  | "pinned" => pure .pinned | "repaired" => pure .repaired | _ => throw "variant"
+
+partial def parseTree (j : Json) : Except String Tree := do
+  let id ← getNat j "id"
+  let tag ← parseQN (← j.getObjVal? "tag")
+  let attrs ← (← getArr j "attrs").toList.mapM parseQN
+  let decl ← parsePairs j "decl"
+  let ch ← (← getArr j "ch").toList.mapM parseTree
+  return .node id tag attrs decl ch
+
+def parsePName (j : Json) : Except String PName := do
+  match ← getStr j "t" with
+  | "loc" => return .loc (← getStr j "l")
+  | "pre" => return .pre (← getStr j "p") (← getStr j "l")
+  | "braced" => return .braced (← getStr j "u") (← getStr j "l")
+  | _ => throw "pname"
+
+def mapJson (m : Map) : Json := Json.arr (m.map fun kv => Json.arr #[kv.1, kv.2]).toArray
+
+def pnameStr : PName → String
+  | .loc l => l
+  | .pre p l => p ++ ":" ++ l
+  | .braced u l => "{" ++ u ++ "}" ++ l
+
+def qnStr (q : QN) : String := if q.ns = "" then q.loc else "{" ++ q.ns ++ "}" ++ q.loc
+
+def unmappedStr : Unmapped → String
+  | .name q => qnStr q
+  | .unknownPrefix p l => p ++ ":" ++ l
+
+def retJson : Option Xmlns → Json
+  | none => Json.null
+  | some x => mapJson x
+
+def stateJson (m : Mapper) : Json :=
+  Json.mkObj [("ns", mapJson m.ns), ("rev", mapJson m.rev),
+    ("stack", Json.arr (m.stack.map fun c => Json.arr #[c.obj, c.level]).toArray)]
+
+def obsJson (o : Obs) : Json :=
+  Json.mkObj [("id", o.id), ("level", o.level), ("key", pnameStr o.key),
+    ("attrs", Json.arr (o.attrs.map fun a => Json.str (pnameStr a.2)).toArray),
+    ("nsK", mapJson o.nsAtKey), ("nsA", mapJson o.nsAtAttrs),
+    ("revK", mapJson o.revAtKey), ("revA", mapJson o.revAtAttrs), ("ret", retJson o.ret)]
+
+/-- one step of an operation script on a bare mapper -/
+def step (v : Variant) (mode : Mode) (m : Mapper) (j : Json) : Except String (Mapper × Json) := do
+  match ← getStr j "k" with
+  | "ctx" =>
+    let r := setContext v mode m (← getNat j "obj") (← getNat j "level") (← parsePairs j "decl")
+    return (r.m, Json.mkObj [("ret", retJson r.ret), ("fuel", !r.fuelOk)])
+  | "set" =>
+    -- "setrep": the tree under check has the repaired `__setitem__`
+    let p ← getStr j "p"
+    let u ← getStr j "u"
+    let m' := if (j.getObjValAs? Bool "setrep").toOption.getD false
+      then setItemRepaired m p u else setItem m p u
+    return (m', Json.mkObj [("ret", Json.null)])
+  | "del" =>
+    match delItem m (← getStr j "p") with
+    | some m' => return (m', Json.mkObj [("ret", Json.null)])
+    | none => return (m, Json.mkObj [("ret", "KeyError")])
+  | "map" =>
+    return (m, Json.mkObj [("ret", pnameStr (mapQName m (← parseQN (← j.getObjVal? "q"))))])
+  | "unmap" =>
+    let n ← parsePName (← j.getObjVal? "n")
+    let r := unmapQName m.ns (← parsePairs j "xmlns") (← getBool j "tab") n
+    return (m, Json.mkObj [("ret", unmappedStr r)])
+  | _ => throw "op kind"
+
+def handle (j : Json) : Except String Json := do
+  let v ← parseVariant (← getStr j "variant")
+  let mode ← parseMode (← getStr j "mode")
+  match ← getStr j "op" with
+  | "doc" =>
+    let user ← parsePairs j "user"
+    let t ← parseTree (← j.getObjVal? "tree")
+    let (m, obs, ok) := decodeDoc v mode user t
+    let fuel := !ok || obs.any fun o => !o.fuelOk
+    return Json.mkObj [("obs", Json.arr (obs.map obsJson).toArray), ("final", stateJson m),
+      ("fuel", fuel)]
+  | "ops" =>
+    let ns ← parsePairs j "ns"
+    let m0 : Mapper := { ns, rev := mkReverse ns }
+    let ops ← getArr j "ops"
+    let mut m := m0
+    let mut out : Array Json := #[]
+    for o in ops do
+      let (m', r) ← step v mode m o
+      m := m'
+      out := out.push (r.mergeObj (stateJson m'))
+    return Json.mkObj [("init", stateJson m0), ("steps", Json.arr out)]
+  | "merge" =>
+    -- update_namespaces(ns, xmlns, root)
+    let ns ← parsePairs j "ns"
+    let (r, ok) := updateNamespaces ns (← parsePairs j "xmlns") (← getBool j "root")
+    return Json.mkObj [("ns", mapJson r), ("fuel", !ok)]
+  | _ => throw "op"
+
+end XsVerif.Driver.C17
+
+def main : IO Unit := XsVerif.Driver.run XsVerif.Driver.C17.handle
